@@ -355,26 +355,41 @@ def write_c(progs, path):
 
 def write_sweep(path):
     """every line number 1..65535 as a resume point: straight-line threads of n yields (n = 64 .. 8192: the largest make
-    functions of several hundred KiB of code), each line one effect and one PT_YIELD"""
+    functions of several hundred KiB of code), each line one effect and one PT_YIELD.  The functions are spread over several
+    translation units of at most ~8200 blocking points each: how many blocking macros ONE translation unit may hold is not the
+    property's business (an implementation may number its resume points per translation unit in 16 bits, as the code numbers
+    them per line in 16 bits); <path> itself becomes the table, the parts are <path minus .c>_p<j>.c"""
     sizes = [64, 256, 1024, 8192, 128, 4096]
-    out, tab, line, k = [], [], 1, 0
+    parts, cur, cur_n, tab, line, k = [], [], 0, [], 1, 0
     while line <= 65535:
         n = min(sizes[k % len(sizes)], 65535 - line + 1)
-        body = "\n".join("(*acc)++; PT_YIELD();" for _ in range(n))
         first = line
-        # PT_BEGIN sits on the line before the first yield (line 0 does not exist: the very first function starts at 2)
-        if first == 1:
+        if first == 1:            # PT_BEGIN sits on the line before the first yield, and line 0 does not exist
             first, n = 2, n - 1
-            body = "\n".join("(*acc)++; PT_YIELD();" for _ in range(n))
-        out.append("#line %d\nstatic int sweep%d(pt_t *pt, long *acc) { PT_BEGIN(pt);\n%s\n(*acc)++; PT_END(); }\n" % (first - 1, k, body))
+        body = "\n".join("(*acc)++; PT_YIELD();" for _ in range(n))
+        if cur and cur_n + n > 8200:
+            parts.append(cur)
+            cur, cur_n = [], 0
+        cur.append("#line %d\nint sweep%d(pt_t *pt, long *acc) { PT_BEGIN(pt);\n%s\n(*acc)++; PT_END(); }\n" % (first - 1, k, body))
+        cur_n += n
         tab.append((k, first, n))
         line = first + n
         k += 1
+    parts.append(cur)
+    names = []
+    for j, fns in enumerate(parts):
+        pn = path.replace(".c", "_p%d.c" % j)
+        names.append(pn)
+        with open(pn, "w") as f:
+            f.write("/* generated by tools/ptgen.py - do not edit */\n#include <assert.h>\n#include <librfn/protothreads.h>\n" + "\n".join(fns))
     with open(path, "w") as f:
-        f.write("/* generated by tools/ptgen.py - do not edit */\n" + "\n".join(out))
+        f.write("/* generated by tools/ptgen.py - do not edit */\n")
+        f.write("\n".join("int sweep%d(pt_t *, long *);" % t[0] for t in tab))
         f.write("\nstatic const struct { int (*fn)(pt_t *, long *); int first, n; } vp_sweep[] = {\n%s\n};\n"
                 % ",\n".join("\t{ sweep%d, %d, %d }" % t for t in tab))
         f.write("static const int vp_nsweep = %d;\n" % len(tab))
+    with open(path + ".parts", "w") as f:
+        f.write("\n".join(names) + "\n")
 
 
 COMMON_NAMES = ["ready", "done", "res", "ret", "r", "tmp", "cond", "i", "n", "x", "state", "pt", "child", "result", "rc", "ok",
